@@ -67,6 +67,7 @@ def absStep (p : Params) (c : Cache) : Op → List G × Res
     (match absFind c.mru f k with
      | some g => g :: c.mru.filter (· ≠ g)
      | none => c.mru, .unit)
+  | .insertFail _ _ => (c.mru, .refused)
 
 theorem reach_clearTable (p : Params) (h : Nat → Nat → Nat) (c : Cache) : Reach p h (clearTable p c) := by
   intro y g hy
@@ -132,6 +133,9 @@ theorem stepCore_refines {p : Params} {h : Nat → Nat → Nat} {c : Cache} (hp 
         · have : ¬(x.font = font ∧ x.key = key) := fun hxm =>
             hxg (hi.keys y y' x g hy hy' (by rw [hxm.1, hm.1]) (by rw [hxm.2, hm.2]))
           simp [keyMatch, hxg, this]
+  | insertFail font key =>
+    rw [stepCore_insertFail]
+    exact ⟨hi.reach, hi.keys, rfl⟩
   | insert font key =>
     generalize hr : stepCore p h c (.insert font key) = r
     unfold stepCore at hr
